@@ -725,7 +725,7 @@ func lenOf(v ssa.Value) ssa.Value {
 }
 
 func extraC20Wave2(c *Ctx, r *Report) {
-	r.Rule("C20-R9", "a suffix/prefix slice x[len(x)-K:] (or x[:len(x)-K]) with constant K is control-dependent on a length test that proves len(x) >= K (the guard and the offset must agree: a digest shorter than the offset must not panic the catalogue update)", 3)
+	r.Rule("C20-R9", "a suffix/prefix slice x[len(x)-K:] (or x[:len(x)-K]) with constant K is control-dependent on a length test that proves len(x) >= K (the guard and the offset must agree: a digest shorter than the offset must not panic the catalogue update)", 1)
 	for _, f := range c.Funcs {
 		if !c.inRepo(f) {
 			continue
@@ -809,24 +809,68 @@ func extraC20Wave2(c *Ctx, r *Report) {
 		}
 		eachInstr(f, func(in ssa.Instruction) {
 			cv, ok := in.(*ssa.Convert)
-			if !ok || len(f.Params) == 0 || cv.X != ssa.Value(f.Params[0]) {
+			if !ok || len(f.Params) == 0 {
+				return
+			}
+			bs, isBasic := cv.Type().Underlying().(*types.Basic)
+			if !isBasic || (bs.Kind() != types.Float32 && bs.Kind() != types.Int32) {
 				return
 			}
 			key := fname(f) + ":narrowing-conversion"
 			upper, lower := false, false
-			for _, cf := range normFacts(condFacts(in.Block())) {
-				cb, ok := cf.Cond.(*ssa.BinOp)
-				if !ok || cb.X != ssa.Value(f.Params[0]) || cf.True {
-					continue
+			if cv.X == ssa.Value(f.Params[0]) {
+				for _, cf := range normFacts(condFacts(in.Block())) {
+					cb, ok := cf.Cond.(*ssa.BinOp)
+					if !ok || cb.X != ssa.Value(f.Params[0]) || cf.True {
+						continue
+					}
+					if _, isK := cb.Y.(*ssa.Const); !isK {
+						continue
+					}
+					if cb.Op == token.GTR || cb.Op == token.GEQ {
+						upper = true
+					}
+					if cb.Op == token.LSS || cb.Op == token.LEQ {
+						lower = true
+					}
 				}
-				if _, isK := cb.Y.(*ssa.Const); !isK {
-					continue
+			} else {
+				// clamped with the builtins: T(min(max(value, LO), HI))
+				var walk func(v ssa.Value, d int) bool
+				walk = func(v ssa.Value, d int) bool {
+					if d == 0 {
+						return false
+					}
+					if v == ssa.Value(f.Params[0]) {
+						return true
+					}
+					call, ok := v.(*ssa.Call)
+					if !ok {
+						return false
+					}
+					bi, ok := call.Call.Value.(*ssa.Builtin)
+					if !ok || (bi.Name() != "min" && bi.Name() != "max") {
+						return false
+					}
+					hasK, inner := false, false
+					for _, a := range call.Call.Args {
+						if _, isK := a.(*ssa.Const); isK {
+							hasK = true
+						} else if walk(a, d-1) {
+							inner = true
+						}
+					}
+					if hasK && inner {
+						if bi.Name() == "min" {
+							upper = true
+						} else {
+							lower = true
+						}
+					}
+					return inner
 				}
-				if cb.Op == token.GTR || cb.Op == token.GEQ {
-					upper = true
-				}
-				if cb.Op == token.LSS || cb.Op == token.LEQ {
-					lower = true
+				if !walk(cv.X, 4) {
+					return
 				}
 			}
 			if upper && lower {
@@ -867,8 +911,13 @@ func extraC17Wave2(c *Ctx, r *Report) {
 				}
 			}
 			key := fname(f) + ":per-client-bucket-creation"
-			atomicCreate := false
-			if p := f.Parent(); p != nil {
+			// isCompute: g is the function handed to an atomic get-or-create of its parent
+			isCompute := func(g *ssa.Function) bool {
+				p := g.Parent()
+				if p == nil {
+					return false
+				}
+				found := false
 				eachInstr(p, func(pi ssa.Instruction) {
 					cc := getCall(pi)
 					if cc == nil {
@@ -879,15 +928,43 @@ func extraC17Wave2(c *Ctx, r *Report) {
 						return
 					}
 					for _, a := range cc.Args {
-						if mc, ok := a.(*ssa.MakeClosure); ok && mc.Fn == ssa.Value(f) {
-							atomicCreate = true
+						if mc, ok := a.(*ssa.MakeClosure); ok && mc.Fn == ssa.Value(g) {
+							found = true
 						}
-						if fn, ok := a.(*ssa.Function); ok && fn == f {
-							atomicCreate = true
+						if fn, ok := a.(*ssa.Function); ok && fn == g {
+							found = true
 						}
 					}
 				})
+				return found
 			}
+			// the bucket is built in the compute function itself, or in a constructor every caller of which is one
+			var inAtomic func(g *ssa.Function, d int) bool
+			inAtomic = func(g *ssa.Function, d int) bool {
+				if isCompute(g) {
+					return true
+				}
+				if d == 0 || g.Parent() != nil {
+					return false
+				}
+				n := 0
+				for _, h := range c.Funcs {
+					bad := false
+					eachInstr(h, func(hi ssa.Instruction) {
+						if cc := getCall(hi); cc != nil && cc.StaticCallee() == g {
+							n++
+							if !inAtomic(h, d-1) {
+								bad = true
+							}
+						}
+					})
+					if bad {
+						return false
+					}
+				}
+				return n > 0
+			}
+			atomicCreate := inAtomic(f, 2)
 			if atomicCreate {
 				r.OK("C17-R5", key, in.Pos(), "bucket created inside the map's atomic get-or-create")
 			} else {
